@@ -129,6 +129,37 @@ fn k_c01_avx2_score_f32_permute_m2_pow2() {
     assert!(scores.matrix()[0][c].to_bits() == expect.to_bits());
 }
 
+/// C01 / C06 (bounded): the AVX2 PERMUTE kernel (DNA) on the LAST sequence row of a matrix whose allocation is exact (4 rows: three
+/// sequence rows and one look-ahead row, motif width 2): a load that strays past the last look-ahead row - e.g. a software-pipelined
+/// "next row" preload - leaves the allocation (a clone of a configured sequence has exactly such storage). Values: concrete
+/// power-of-two cells, symbolic symbols in the two rows read.
+#[kani::proof]
+#[kani::unwind(34)]
+#[kani::stub(std::arch::x86_64::_mm256_shuffle_epi8, m256_shuffle_epi8)]
+#[kani::stub(std::arch::x86_64::_mm256_permutevar8x32_ps, m256_permutevar8x32_ps)]
+#[kani::stub(std::arch::x86_64::_mm256_permute2f128_ps, m256_permute2f128_ps)]
+#[kani::stub(std::arch::x86_64::_mm256_stream_ps, m256_stream_ps)]
+#[kani::stub(std::arch::x86_64::_mm256_load_si256, m256_load_si256)]
+#[kani::stub(std::arch::x86_64::_mm_sfence, m_sfence)]
+fn k_c06_avx2_score_f32_permute_last_row_exact() {
+    const R: usize = 3; const M: usize = 2;
+    let mut sm = unsafe { DenseMatrix::<Nucleotide, U32>::uninitialized(R + M - 1) };
+    let mut r = 0;
+    while r < R - 1 { let mut c = 0; while c < 32 { sm[r][c] = Dna::symbols()[4]; c += 1; } r += 1; }
+    while r < R + M - 1 { let mut c = 0; while c < 32 { sm[r][c] = any_nuc(); c += 1; } r += 1; }
+    let seq = StripedSequence::<Dna, U32>::with_wrap_unchecked(sm, 32 * R, M - 1);
+    let mut pm = unsafe { DenseMatrix::<f32, U5>::uninitialized(M) };
+    let mut r = 0;
+    while r < M { let mut c = 0; while c < 5 { pm[r][c] = (1u32 << (5 * r + c)) as f32; c += 1; } r += 1; }
+    let mut scores = StripedScores::<f32, U32>::empty();
+    *scores.matrix_mut() = unsafe { DenseMatrix::<f32, U32>::uninitialized(1) };
+    Avx2::score_f32_rows_into::<Dna, _, _>(&pm, &seq, R - 1..R, &mut scores);
+    assert!(scores.matrix().rows() == 1);
+    let c: usize = kani::any(); kani::assume(c < 32);
+    let expect = (0.0f32 + pm[0][seq.matrix()[R - 1][c].as_index()]) + pm[1][seq.matrix()[R][c].as_index()];
+    assert!(scores.matrix()[0][c].to_bits() == expect.to_bits());
+}
+
 /// C01 / C06 (bounded): the AVX2 GATHER kernel (alphabets with more than 8 symbols: Protein). The scored row is the LAST row of a
 /// matrix whose allocation is exact (4 rows), so a load that strays past the row leaves the allocation; the table row holds 21
 /// arbitrary non-NaN cells; every one of the 32 columns gets the cell of its symbol.
